@@ -565,3 +565,117 @@ Example C11_gen_nonvacuous :
   /\ Fit.compute_knot_vector2 Qops 2 5 4 [0; 1#8; 3#8; 1#2; 3#4; 1]%Q = [0; 0; 0; 1#4; 1; 1; 1]%Q.
 Proof. repeat split; vm_compute; reflexivity. Qed.
 
+From NV Require Import Model.Derivs Proofs.GenTieDerivCpts.
+From NV Require Import Proofs.GenTieArr4 Proofs.GenTieDerivSurf.
+From NV Require Import Model.KnotRefine Proofs.GenTieRefine.
+From NV Require Import Model.Eval Gen.Evaluators Proofs.GenTieEvalLib Proofs.GenTieEvalCurve Proofs.GenTieEvalSurf Proofs.GenTieEvalVol.
+From NV Require Import Model.Derivs Gen.HelpersC Proofs.GenTieBinom Proofs.GenTieBasisAll Proofs.GenTieEvalDerivCurve Proofs.GenTieEvalDerivCurve2.
+From NV Require Import Proofs.GenTieEvalDerivSurf Proofs.GenTieEvalDerivSurfRat Proofs.GenTieEvalDerivSurf2.
+From NV Require Import Model.Weights Gen.Compatibility Proofs.GenTieCompat.
+From NV Require Import Model.Layout Gen.Compatibility Proofs.GenTieFlip.
+From NV Require Import Model.Layout Model.Voxel Model.Hull Gen.OperationsInternal Proofs.GenTieFindCtrlpts.
+From NV Require Import Model.Layout Model.Hull Gen.OperationsInternal Proofs.GenTieFindCtrlpts.
+From NV Require Import Model.InsertKnot Gen.UtilitiesB Proofs.GenTieCheckParams.
+
+From NV Require Import Model.Fit Gen.PreludeExt2 Gen.Fitting Gen.FittingB Proofs.GenTieFit Proofs.GenTieFitB.
+
+(* [G] fitting._build_coeff_matrix; wf: degree < number of data points n <= len(params), n + degree <= len(knotvector) *)
+Theorem C11_gen_build_coeff_matrix_R : forall (p : nat) (kv params : list R) (pts : list (list R)),
+  p < length pts -> length pts <= length params -> length pts + p <= length kv ->
+  FittingB._build_coeff_matrix Rops (Z.of_nat p) kv params pts = GOk (Fit.build_coeff_matrix Rops p kv params (length pts)).
+Proof. exact build_coeff_matrix_tie_R. Qed.
+Print Assumptions C11_gen_build_coeff_matrix_R.
+Theorem C11_gen_build_coeff_matrix_Q : forall (p : nat) (kv params : list Q) (pts : list (list Q)),
+  p < length pts -> length pts <= length params -> length pts + p <= length kv ->
+  FittingB._build_coeff_matrix Qops (Z.of_nat p) kv params pts = GOk (Fit.build_coeff_matrix Qops p kv params (length pts)).
+Proof. exact build_coeff_matrix_tie_Q. Qed.
+Print Assumptions C11_gen_build_coeff_matrix_Q.
+
+(* [G] fitting.interpolate_curve (centripetal = False), the numerical part: parameters -> knot vector -> collocation matrix -> lu_solve.
+   The result object (curve = BSpline.Curve(); curve.degree = ..; curve.ctrlpts = ..; curve.knotvector = ..) is the record curvedata of the
+   values assigned.  dist = linalg.point_distance is uninterpreted (any total function, dm = its value); chords_of dm pts = the chord
+   lengths the model takes as input.  Solvability hypothesis: no zero on the diagonals of the LU factors of the collocation matrix (as for
+   lu_solve).  ZeroDivisionError of compute_params_curve (the chords sum to 0) <-> Crash *)
+Theorem C11_gen_interpolate_curve_R : forall (pts : list (list R)) (p : nat) (dist : list R -> list R -> gres R) (dm : list R -> list R -> R),
+  (forall a b, dist a b = GOk (dm a b)) -> pts <> [] -> p < length pts ->
+  (forall r, In r pts -> length (hd [] pts) <= length r) ->
+  (forall uk L U, Fit.compute_params_curve Rops (chords_of dm pts) = Ok uk ->
+     LinAlg.lu_decomposition Rops (Fit.build_coeff_matrix Rops p (Fit.compute_knot_vector Rops p (length pts) uk) uk (length pts)) = Ok (L, U) ->
+     forall i, i < length pts -> i < length (nth i L []) /\ oeqb Rops (get2 Rops L i i) (o0 Rops) = false
+                               /\ length pts <= length (nth i U []) /\ oeqb Rops (get2 Rops U i i) (o0 Rops) = false) ->
+  FittingB.interpolate_curve__centripetal_false Rops pts (Z.of_nat p) dist =
+  res_to_gres (fun Pkv => mk_curvedata (Z.of_nat p) (fst Pkv) (snd Pkv)) ValueError ZeroDivisionError
+    (Fit.interpolate_curve Rops pts p (chords_of dm pts)).
+Proof. exact interpolate_curve_tie_R. Qed.
+Print Assumptions C11_gen_interpolate_curve_R.
+Theorem C11_gen_interpolate_curve_Q : forall (pts : list (list Q)) (p : nat) (dist : list Q -> list Q -> gres Q) (dm : list Q -> list Q -> Q),
+  (forall a b, dist a b = GOk (dm a b)) -> pts <> [] -> p < length pts ->
+  (forall r, In r pts -> length (hd [] pts) <= length r) ->
+  (forall uk L U, Fit.compute_params_curve Qops (chords_of dm pts) = Ok uk ->
+     LinAlg.lu_decomposition Qops (Fit.build_coeff_matrix Qops p (Fit.compute_knot_vector Qops p (length pts) uk) uk (length pts)) = Ok (L, U) ->
+     forall i, i < length pts -> i < length (nth i L []) /\ oeqb Qops (get2 Qops L i i) (o0 Qops) = false
+                               /\ length pts <= length (nth i U []) /\ oeqb Qops (get2 Qops U i i) (o0 Qops) = false) ->
+  FittingB.interpolate_curve__centripetal_false Qops pts (Z.of_nat p) dist =
+  res_to_gres (fun Pkv => mk_curvedata (Z.of_nat p) (fst Pkv) (snd Pkv)) ValueError ZeroDivisionError
+    (Fit.interpolate_curve Qops pts p (chords_of dm pts)).
+Proof. exact interpolate_curve_tie_Q. Qed.
+Print Assumptions C11_gen_interpolate_curve_Q.
+Example C11_gen_interpolate_nonvacuous :
+  FittingB.interpolate_curve__centripetal_false Qops exIP 2 (fun a b => GOk (exDm a b)) =
+    GOk (mk_curvedata 2 [[0; 0]; [3 # 4; 66 # 35]; [2; -13 # 20]; [13 # 4; 116 # 35]; [4; 1]] [0; 0; 0; 3 # 8; 5 # 8; 1; 1; 1])%Q
+  /\ Fit.interpolate_curve Qops exIP 2 (chords_of exDm exIP) =
+    Ok ([[0; 0]; [3 # 4; 66 # 35]; [2; -13 # 20]; [13 # 4; 116 # 35]; [4; 1]], [0; 0; 0; 3 # 8; 5 # 8; 1; 1; 1])%Q.
+Proof. split; vm_compute; reflexivity. Qed.
+
+
+
+From NV Require Import Proofs.GenTieFitSurf.
+
+(* [G] fitting.compute_params_surface (centripetal = False); wf: size_u, size_v >= 1, size_u * size_v <= len(points); ZeroDivisionError <-> Crash *)
+Theorem C11_gen_compute_params_surface_R : forall (pts : list (list R)) (su sv : nat) (dist : list R -> list R -> gres R) (dm : list R -> list R -> R),
+  (forall a b, dist a b = GOk (dm a b)) -> 1 <= su -> 1 <= sv -> su * sv <= length pts ->
+  FittingB.compute_params_surface__centripetal_false Rops pts (Z.of_nat su) (Z.of_nat sv) dist =
+  res_to_gres (fun x => x) ValueError ZeroDivisionError (Fit.compute_params_surface Rops su sv (cdsU dm pts su sv) (cdsV dm pts su sv)).
+Proof. exact compute_params_surface_tie_R. Qed.
+Print Assumptions C11_gen_compute_params_surface_R.
+Theorem C11_gen_compute_params_surface_Q : forall (pts : list (list Q)) (su sv : nat) (dist : list Q -> list Q -> gres Q) (dm : list Q -> list Q -> Q),
+  (forall a b, dist a b = GOk (dm a b)) -> 1 <= su -> 1 <= sv -> su * sv <= length pts ->
+  FittingB.compute_params_surface__centripetal_false Qops pts (Z.of_nat su) (Z.of_nat sv) dist =
+  res_to_gres (fun x => x) ValueError ZeroDivisionError (Fit.compute_params_surface Qops su sv (cdsU dm pts su sv) (cdsV dm pts su sv)).
+Proof. exact compute_params_surface_tie_Q. Qed.
+Print Assumptions C11_gen_compute_params_surface_Q.
+
+(* [G] fitting.interpolate_surface (centripetal = False), the numerical part (two passes of curve interpolation); the result object is the
+   record surfdata of the values assigned to the new BSpline.Surface.  Solvability: no zero on the diagonals of the LU factors of the two
+   collocation matrices *)
+Theorem C11_gen_interpolate_surface_R : forall (pts : list (list R)) (su sv pu pv d : nat) (dist : list R -> list R -> gres R) (dm : list R -> list R -> R),
+  (forall a b, dist a b = GOk (dm a b)) -> pu < su -> pv < sv -> su * sv <= length pts ->
+  (forall i, i < su * sv -> length (nth i pts []) = d) ->
+  (forall uk vl, Fit.compute_params_surface Rops su sv (cdsU dm pts su sv) (cdsV dm pts su sv) = Ok (uk, vl) ->
+     (forall L U, LinAlg.lu_decomposition Rops (Fit.build_coeff_matrix Rops pu (Fit.compute_knot_vector Rops pu su uk) uk su) = Ok (L, U) ->
+        forall i, i < su -> i < length (nth i L []) /\ oeqb Rops (get2 Rops L i i) (o0 Rops) = false
+                           /\ su <= length (nth i U []) /\ oeqb Rops (get2 Rops U i i) (o0 Rops) = false) /\
+     (forall L U, LinAlg.lu_decomposition Rops (Fit.build_coeff_matrix Rops pv (Fit.compute_knot_vector Rops pv sv vl) vl sv) = Ok (L, U) ->
+        forall i, i < sv -> i < length (nth i L []) /\ oeqb Rops (get2 Rops L i i) (o0 Rops) = false
+                           /\ sv <= length (nth i U []) /\ oeqb Rops (get2 Rops U i i) (o0 Rops) = false)) ->
+  FittingB.interpolate_surface__centripetal_false Rops pts (Z.of_nat su) (Z.of_nat sv) (Z.of_nat pu) (Z.of_nat pv) dist =
+  res_to_gres (fun r => mk_surfdata (Z.of_nat pu) (Z.of_nat pv) (Z.of_nat su) (Z.of_nat sv) (fst (fst r)) (snd (fst r)) (snd r))
+    ValueError ZeroDivisionError (Fit.interpolate_surface Rops pts su sv pu pv (cdsU dm pts su sv) (cdsV dm pts su sv)).
+Proof. exact interpolate_surface_tie_R. Qed.
+Print Assumptions C11_gen_interpolate_surface_R.
+Theorem C11_gen_interpolate_surface_Q : forall (pts : list (list Q)) (su sv pu pv d : nat) (dist : list Q -> list Q -> gres Q) (dm : list Q -> list Q -> Q),
+  (forall a b, dist a b = GOk (dm a b)) -> pu < su -> pv < sv -> su * sv <= length pts ->
+  (forall i, i < su * sv -> length (nth i pts []) = d) ->
+  (forall uk vl, Fit.compute_params_surface Qops su sv (cdsU dm pts su sv) (cdsV dm pts su sv) = Ok (uk, vl) ->
+     (forall L U, LinAlg.lu_decomposition Qops (Fit.build_coeff_matrix Qops pu (Fit.compute_knot_vector Qops pu su uk) uk su) = Ok (L, U) ->
+        forall i, i < su -> i < length (nth i L []) /\ oeqb Qops (get2 Qops L i i) (o0 Qops) = false
+                           /\ su <= length (nth i U []) /\ oeqb Qops (get2 Qops U i i) (o0 Qops) = false) /\
+     (forall L U, LinAlg.lu_decomposition Qops (Fit.build_coeff_matrix Qops pv (Fit.compute_knot_vector Qops pv sv vl) vl sv) = Ok (L, U) ->
+        forall i, i < sv -> i < length (nth i L []) /\ oeqb Qops (get2 Qops L i i) (o0 Qops) = false
+                           /\ sv <= length (nth i U []) /\ oeqb Qops (get2 Qops U i i) (o0 Qops) = false)) ->
+  FittingB.interpolate_surface__centripetal_false Qops pts (Z.of_nat su) (Z.of_nat sv) (Z.of_nat pu) (Z.of_nat pv) dist =
+  res_to_gres (fun r => mk_surfdata (Z.of_nat pu) (Z.of_nat pv) (Z.of_nat su) (Z.of_nat sv) (fst (fst r)) (snd (fst r)) (snd r))
+    ValueError ZeroDivisionError (Fit.interpolate_surface Qops pts su sv pu pv (cdsU dm pts su sv) (cdsV dm pts su sv)).
+Proof. exact interpolate_surface_tie_Q. Qed.
+Print Assumptions C11_gen_interpolate_surface_Q.
+
